@@ -221,3 +221,37 @@ Fixpoint run (c : cfg) (s : pending) (ops : list op) : pending * list (list out)
   end.
 
 Definition init : pending := [].
+
+(* ------------------------------------------------------------------ the block poller (poller.go), source of the OHead operations *)
+(* pollBlocks: lastBlock, answer of getBlock (None = error, incl. a block without number) ->
+   (lastBlock', published heads with their Safe flag, error) *)
+Definition poll_blocks (last : Z) (ans : option Z) : Z * list (Z * bool) * bool :=
+  match ans with
+  | None => (last, [], true)
+  | Some latest =>
+    if evm_poll_not_newer last latest then (last, [], false)
+    else (latest, [(latest, evm_poll_safe)], false)
+  end.
+
+(* successive polls *)
+Fixpoint poll_seq (last : Z) (answers : list (option Z)) : Z * list (Z * bool) :=
+  match answers with
+  | [] => (last, [])
+  | a :: t => let r := poll_blocks last a in
+              let r' := poll_seq (fst (fst r)) t in (fst r', snd (fst r) ++ snd r')
+  end.
+
+(* one timer tick of BlockPollConnector.run: nothing while disabled; up to evm_poll_attempts polls, stopping at the first
+   that succeeds; all failing = the error is published on errFeed (the watcher's Run returns) *)
+Fixpoint poll_try (fuel : nat) (last : Z) (answers : list (option Z)) : Z * list (Z * bool) * bool :=
+  match fuel with
+  | O => (last, [], true)
+  | S f =>
+    match answers with
+    | [] => (last, [], true)
+    | a :: t => let r := poll_blocks last a in
+                if snd r then poll_try f (fst (fst r)) t else r
+    end
+  end.
+Definition poll_tick (enabled : bool) (last : Z) (answers : list (option Z)) : Z * list (Z * bool) * bool :=
+  if enabled then poll_try (Z.to_nat evm_poll_attempts) last answers else (last, [], false).
